@@ -74,6 +74,17 @@ Theorem resize_adjoint_weighted : forall (w : R) (m : pmode) (x y : list R) (off
 Proof. exact adjoint_weighted. Qed.
 Print Assumptions resize_adjoint_weighted.
 
+(* T1: every resizing variant except constant padding with pad_const <> 0 is linear
+   ([vlin a x b y] is the entry-wise a*x + b*y): R(a x + b y) = a R x + b R y. *)
+Theorem resize_is_linear : forall (m : pmode) (a b : R) (x y : list R) (n_out : nat) (off : Z),
+  length x = length y ->
+  offset_ok (length x) n_out off = true -> pad_legal m (length x) n_out off = true ->
+  exists rx ry, resize1 m Forward 0 true x n_out off = Ok rx /\
+                resize1 m Forward 0 true y n_out off = Ok ry /\
+                resize1 m Forward 0 true (vlin a x b y) n_out off = Ok (vlin a rx b ry).
+Proof. exact resize_linear. Qed.
+Print Assumptions resize_is_linear.
+
 (* T1: constant padding with pad_const <> 0 is affine and its linear part (the
    operator's derivative) is zero padding:  R_c(x + h) - R_c(x) = R_0(h). *)
 Theorem constant_padding_affine : forall (c : R) (x h : list R) (n_out : nat) (off : Z),
